@@ -94,7 +94,8 @@ def angle_input(name, lo="0"):
 
 class Case:
     def __init__(self, name, inputs, run, ref, pre=None, timeout=60, tol=1e-6, signature=None, desc="",
-                 maxpaths=64, hints=None, abs_tol=1e-9, maxdepth=None, extra_assumptions=None):
+                 maxpaths=64, hints=None, abs_tol=1e-9, maxdepth=None, extra_assumptions=None, use_nf=True):
+        self.use_nf = use_nf
         self.maxdepth = maxdepth
         self.extra_assumptions = extra_assumptions
         self.name, self.inputs, self.run, self.ref, self.pre = name, inputs, run, ref, pre
@@ -127,6 +128,7 @@ class Case:
         return v
 
     def _setup(self):
+        CTX.reduce = self.use_nf
         self._v = self._mk_inputs()
         if self.pre:
             for c in self.pre(self._v):
